@@ -71,6 +71,11 @@ pub fn plan<'a>(ctx: &'a Ctx, rng: &mut Rng, tier: Tier) -> Plan<'a> {
             let flags = gen::flag_rows(rng, REGEX_FLAGS);
             let mut cases = cross_flags(rng, &pools.all(), &flags, 3);
             cases.extend(deep_nested(&[0, mask(&[BIT_VERB]), mask(&[BIT_ESC]), mask(&[BIT_CAP, BIT_CI]), mask(&[BIT_NO_END])]));
+            for t in gen::run_sets(rng, if quick { 20_000 } else { 400_000 }) {
+                let mut cfg = Cfg::new(mask(&[BIT_REP]));
+                if rng.chance(1, 4) { cfg.min_rep = 1 + rng.below(2) as u32; cfg.min_len = 1 + rng.below(2) as u32; }
+                cases.push(Case { tcs: t, cfg });
+            }
             Plan {
                 cases,
                 judge: Box::new(|c, b| judge::judge_sound(c, b)),
@@ -207,6 +212,7 @@ pub fn plan<'a>(ctx: &'a Ctx, rng: &mut Rng, tier: Tier) -> Plan<'a> {
             for w in &nested {
                 pool.push(vec![w.clone()]);
             }
+            pool.extend(gen::run_sets(rng, if quick { 1_500 } else { 30_000 }));
             let mut cases = vec![];
             let thr: Vec<(u32, u32)> = if quick { vec![(1, 1), (2, 1), (1, 2), (3, 2)] } else { (1..=4).flat_map(|r| (1..=4).map(move |l| (r, l))).chain([(10, 1), (1, 10)]).collect() };
             let extras = [0u32, mask(&[BIT_DIGIT]), mask(&[BIT_WORD, BIT_NON_WORD]), mask(&[BIT_VERB]), mask(&[BIT_CAP, BIT_ESC]), mask(&[BIT_CI])];
@@ -556,7 +562,12 @@ pub fn plan<'a>(ctx: &'a Ctx, rng: &mut Rng, tier: Tier) -> Plan<'a> {
         "C16" => {
             let pools = pools_for(ctx, rng, tier, &[("meta", gen::META), ("clusters", gen::CLUSTERS), ("classy", gen::CLASSY)]);
             let flags: Vec<u32> = vec![0, mask(&[BIT_DIGIT]), mask(&[BIT_WORD, BIT_NON_WORD]), mask(&[BIT_CI]), mask(&[BIT_SPACE, BIT_NON_SPACE, BIT_CAP]), mask(&[BIT_REP])];
-            let cases = cross_flags(rng, &pools.all(), &flags, 2);
+            let mut cases = cross_flags(rng, &pools.all(), &flags, 2);
+            for t in gen::run_sets(rng, if quick { 6_000 } else { 120_000 }) {
+                let mut cfg = Cfg::new(mask(&[BIT_REP]));
+                if rng.chance(1, 4) { cfg.min_rep = 1 + rng.below(2) as u32; cfg.min_len = 1 + rng.below(2) as u32; }
+                cases.push(Case { tcs: t, cfg });
+            }
             Plan {
                 cases,
                 judge: Box::new(move |c, b| {
